@@ -71,6 +71,10 @@ impl<'a> Iterator for List<'a> {
             return None;
         };
         let (etag, mut rem) = self.remaining.split_at(end + 1);
+        // `1#element` is `element *( OWS "," OWS element )`: whitespace may precede the comma, too.
+        while let [b' ' | b'\t', tail @ ..] = rem {
+            rem = tail;
+        }
         if let [b',', r @ ..] = rem {
             rem = r;
             while let [b' ' | b'\t', tail @ ..] = rem {
